@@ -155,8 +155,8 @@ REGISTRY = {
         'level': 'proof',
         'verus': ['v_view', 'v_axisiter'],
         'verus_pairs': {'v_view': ['k_view_axis_views_2x3x2'], 'v_axisiter': ['k_view_axis_views_2x3x2']},
-        'kani_quick': ['k_marg_errors', 'k_marg_2x3_a0', 'k_marg_2x2x1x2_a302', 'k_view_axis_views_2x3x2'],
-        'kani_thorough': ['k_marg_2x3x2_a0', 'k_marg_2x3x2_a1', 'k_marg_2x3x2_a20', 'k_marg_2x3x2_a01', 'k_marg_2x2x1x2_a132', 'k_marg_2x3x1x2_a031'],
+        'kani_quick': ['k_marg_errors', 'k_marg_2x3_a0', 'k_marg_2x2x1x2_a302', 'k_marg_2x2x1x2_a132', 'k_view_axis_views_2x3x2'],
+        'kani_thorough': ['k_marg_2x3x2_a0', 'k_marg_2x3x2_a1', 'k_marg_2x3x2_a20', 'k_marg_2x3x2_a01', 'k_marg_2x3x1x2_a031'],
         'assumptions': [A_FLOATSUM, A_BIN, 'Array::sum / marginalize_unchecked (iterator adapters) are checked by Kani on the listed shapes only; in the multi-axis marginalize harnesses Array::sum is replaced by its contract (sum_by_definition), which the single-axis harnesses check against the real sum'],
         'not_decided': ['--marginalize-keep complement (View::run, bin crate)', 'create/marginalize relation on call sets'],
     },
